@@ -67,7 +67,14 @@ def run(ctx, tier):
         if not helpers or not a or not isinstance(a[0], str) or not (8 <= len(a[0]) <= 28):
             continue
         hn, hf = helpers[rng.randrange(len(helpers))]
-        probe.call(hf, a[0])
+        if nint % 3 == 2:
+            # ... also on a string that is NOT a frame (a Mode A/C reply, a truncated or empty line): whatever that call does
+            # or raises, it must leave nothing behind for the next, well-formed call
+            bad_ = rng.choice((a[0][:4], a[0][:13], a[0][:2], "", "7700", a[0] + a[0][:3]))
+            probe.call(hf, bad_)
+            ctx.hit("replay_after_malformed_helper_call")
+        else:
+            probe.call(hf, a[0])
         got = repr(probe.call(fn, *_copy(a), **_copy(k)))
         nint += 1
         ctx.ev()
